@@ -393,6 +393,13 @@ fn ops_num<N: FromLabel + NumericOps>(pool: bool, op: &str, args: &[Arg]) -> Opt
             let nat = a.get_elements().unwrap().iter().zip(b.get_elements().unwrap().iter()).all(|(x, y)| x == y);
             if pool { format!("z({})|nat({})|ne({})", r as i32, nat as i32, ne as i32) } else { format!("z({})", r as i32) }
         }
+        ("cmpops", [Arg::A(s1, e1), Arg::A(s2, e2)]) => {
+            // each ordering operator on its own (they are four separate trait methods): 1 / 0, or 2 when it panics
+            let (a, b) = (mkn::<N>(pool, s1, e1)?, mkn::<N>(pool, s2, e2)?);
+            let run = |f: &dyn Fn(&Array<N>, &Array<N>) -> bool| match std::panic::catch_unwind(std::panic::AssertUnwindSafe(|| f(&a, &b))) {
+                Ok(v) => v as i32, Err(_) => 2 };
+            format!("l({},{},{},{})", run(&|x, y| x < y), run(&|x, y| x <= y), run(&|x, y| x > y), run(&|x, y| x >= y))
+        }
         ("cmp", [Arg::A(s1, e1), Arg::A(s2, e2)]) => {
             let (a, b) = (mkn::<N>(pool, s1, e1)?, mkn::<N>(pool, s2, e2)?);
             let code = |c: Option<std::cmp::Ordering>| match c { Some(std::cmp::Ordering::Less) => -1, Some(std::cmp::Ordering::Equal) => 0, Some(std::cmp::Ordering::Greater) => 1, None => 2 };
@@ -530,7 +537,7 @@ pub fn dispatch(op: &str, ty: &str, args: &[Arg]) -> Option<String> {
         }
         "map_log" | "map_e_log" | "filter_log" | "filter_e_log" | "filter_map_log" | "filter_map_e_log"
         | "for_each_log" | "for_each_e_log" | "fold_acc" | "into_iter" => closures(op, args),
-        "op2" | "op2a" | "op2s" | "op2as" | "eq" | "cmp" | "neg" | "negp" | "not" => {
+        "op2" | "op2a" | "op2s" | "op2as" | "eq" | "cmp" | "cmpops" | "neg" | "negp" | "not" => {
             let o = match args.first() { Some(Arg::Z(o)) => *o % 100, _ => -1 };
             if ty == "bool" { ops_bool(op, args) }
             else if o >= 5 { match ty { "u8" => ops_bits::<u8>(op, args), "i32" => ops_bits::<i32>(op, args), "i64" => ops_bits::<i64>(op, args), _ => None } }
